@@ -536,7 +536,10 @@ def cert_worker(job):
         for crit, ext, principals in (({}, {}, ()), ({b'force-command': b'run it'}, {b'permit-pty': b''}, (b'alice',)),
                                       ({b'force-command': b'x', b'source-address': b'10.0.0.0/8,::1/128'},
                                        {b'no-touch-required': b'', b'permit-X11-forwarding': b'', b'permit-user-rc': b''}, (b'a', b'b')),
-                                      ({}, {b'permit-agent-forwarding': b'', b'permit-port-forwarding': b''}, ())):
+                                      ({}, {b'permit-agent-forwarding': b'', b'permit-port-forwarding': b''}, ()),
+                                      # extensions nobody knows, with and without a value (PROTOCOL.certkeys: to be ignored)
+                                      ({}, {b'login@github.com': b'carol', b'permit-pty': b''}, (b'alice',)),
+                                      ({b'force-command': b'x'}, {b'aaa-first@example.com': b'', b'permit-pty': b'', b'zzz@example.com': b'v\0w'}, ())):
             for ctype in ('user', 'host'):
                 if ctype == 'host' and (crit or ext):
                     continue
@@ -550,7 +553,7 @@ def cert_worker(job):
                 data = b.sign(pca).public_bytes()
                 want = {'type': ctype, 'serial': 99, 'key_id': 'pyca id', 'principals': [p.decode() for p in principals], 'valid_after': 10,
                         'valid_before': 2 ** 40, 'critical': {k.decode(): v.decode() for k, v in crit.items()},
-                        'extensions': {k.decode(): '' for k in ext}, 'subject': base64.b64encode(subj.public_data).decode(),
+                        'extensions': {k.decode(): '' for k in ext if b'@' not in k}, 'subject': base64.b64encode(subj.public_data).decode(),
                         'ca': base64.b64encode(ca.public_data).decode()}
                 acc.add(core.digest(('cert-p', ca_alg, subj_alg, ctype, tuple(sorted(crit)), tuple(sorted(ext)))), transitions=1)
                 try:
@@ -572,7 +575,8 @@ def cert_worker(job):
                     ['-O', 'clear', '-O', 'permit-pty', '-O', 'no-touch-required', '-n', 'a'],
                     ['-O', 'force-command=/bin/true -x', '-O', 'source-address=10.0.0.0/8,192.168.1.1/32', '-n', 'a'],
                     ['-O', 'no-pty', '-O', 'no-user-rc', '-O', 'no-touch-required', '-O', 'force-command=x', '-n', 'a', '-z', '18446744073709551615'],
-                    ['-O', 'no-x11-forwarding', '-O', 'no-agent-forwarding', '-O', 'no-port-forwarding', '-z', '3']]
+                    ['-O', 'no-x11-forwarding', '-O', 'no-agent-forwarding', '-O', 'no-port-forwarding', '-z', '3'],
+                    ['-O', 'extension:login@github.com=alice', '-n', 'a'], ['-O', 'clear', '-O', 'extension:x@example.com', '-O', 'permit-pty', '-n', 'a']]
         for i, args in enumerate(variants):
             out = os.path.join(tmp, 'subj-cert.pub')
             if os.path.exists(out):
@@ -587,6 +591,8 @@ def cert_worker(job):
                 ref = cert_view_pyca(data)
                 kv = cert_view_keygen(out)
                 a = cert_view_asyncssh(asyncssh.import_certificate(data))
+                for view in (ref, kv):          # extensions asyncssh does not know are ignored by it, as they must be
+                    view['extensions'] = {k: v for k, v in view['extensions'].items() if '@' not in k}
                 if a != ref:
                     viol('asyncssh-reads-differently', 'written-by-ssh-keygen', 'ssh-keygen -s %r: asyncssh %r, PyCA %r' % (args, a, ref))
                 if (a['critical'], a['extensions'], a['principals'], a['serial'], a['key_id']) != \
